@@ -427,6 +427,10 @@ func psIsNeighborLT(ps ParseState) bool {
 	return tkzIsNeighborLT(ps.tkz)
 }
 
+func psCurIsNeighborOfPrev(ps ParseState) bool {
+	return tkzCurIsNeighborOfPrev(ps.tkz)
+}
+
 func ParseSepList[T0 any](one func(ParseState) frt.Tuple2[ParseState, T0], sep TokenType, ps ParseState) frt.Tuple2[ParseState, []T0] {
 	endPred := (func(_r0 ParseState) bool { return psCurIsNot(sep, _r0) })
 	next := (func(_r0 ParseState) ParseState { return psConsume(sep, _r0) })
